@@ -419,30 +419,38 @@ func c05Probe(r *lp.Run, rng *lp.Rand, drv *gc.Driver, s *c05set, L int) {
 			c05Judge(r, s, probes[off+i], x.(string))
 		}
 	}
-	// prefix option: the same router behind /api
-	pfx := [][3]string{}
+	// prefix option: the same router behind /api — plain and escaped spellings, FindPath and ServeHTTP
 	var pfxProbes []probe
+	nInst, nResp := 0, 0
 	for _, p := range probes {
-		if p.kind == "inst" && len(pfxProbes) < 60 {
+		if p.kind == "inst" && nInst < 60 {
+			nInst++
 			pfxProbes = append(pfxProbes, p)
-			pfx = append(pfx, [3]string{p.method, "/api" + p.path, ""})
+		}
+		if p.kind == "respell" && nResp < 60 {
+			nResp++
+			pfxProbes = append(pfxProbes, p)
 		}
 	}
-	ans, _ := drv.Do(map[string]any{"pkg": s.pkg.Name, "cmd": "batch", "prefix": "/api", "items": pfx})
-	ans2, _ := drv.Do(map[string]any{"pkg": s.pkg.Name, "cmd": "batch", "items": func() [][3]string {
-		o := [][3]string{}
-		for _, p := range pfxProbes {
-			o = append(o, [3]string{p.method, p.path, ""})
+	with := [][3]string{}
+	without := [][3]string{}
+	for _, p := range pfxProbes {
+		raw := ""
+		if p.raw != "" {
+			raw = "/api" + p.raw
 		}
-		return o
-	}()})
+		with = append(with, [3]string{p.method, "/api" + p.path, raw})
+		without = append(without, [3]string{p.method, p.path, p.raw})
+	}
+	ans, _ := drv.Do(map[string]any{"pkg": s.pkg.Name, "cmd": "batch", "prefix": "/api", "items": with})
+	ans2, _ := drv.Do(map[string]any{"pkg": s.pkg.Name, "cmd": "batch", "items": without})
 	if a, ok := ans["results"].([]any); ok {
 		if b, ok := ans2["results"].([]any); ok {
 			for i := range a {
-				r.Count("prefix "+s.pkg.Name+pfxProbes[i].path, "prefix", true)
+				r.Count("prefix "+s.pkg.Name+pfxProbes[i].path+pfxProbes[i].raw, "prefix:"+pfxProbes[i].kind, true)
 				r.PropCheck()
 				if a[i] != b[i] {
-					r.Fail(lp.PropFail{Property: "C05", What: "dispatch behind a path prefix differs from dispatch without it", Input: map[string]any{"routes": rsetLine(s.routes), "method": pfxProbes[i].method, "path": pfxProbes[i].path, "prefix": "/api"}, Observed: fmt.Sprint(a[i]), Expected: fmt.Sprint(b[i])})
+					r.Fail(lp.PropFail{Property: "C05", What: "lookup/dispatch behind a path prefix differs from lookup/dispatch without it", Input: map[string]any{"routes": rsetLine(s.routes), "method": pfxProbes[i].method, "path": pfxProbes[i].path, "raw_path": pfxProbes[i].raw, "prefix": "/api"}, Observed: fmt.Sprint(a[i]), Expected: fmt.Sprint(b[i])})
 				}
 			}
 		}
